@@ -25,6 +25,7 @@ CONSTANTS
   Inputs,      \* sequence of integer input vectors
   GradsIn,     \* sequence of integer upstream gradients (same length as the inputs)
   MaxHist, Record, Acts,
+  Eps,         \* the eps option of the layer (a rational): the driver evaluates (x - m) / sqrt(v + Eps) with it
   Nested       \* the layer sits inside two nested containers; train()/eval() may be called on the root or on the layer
 
 VARIABLES training, rm, rv, nbt, out, mask, hist, fwds, bwout,
